@@ -766,6 +766,8 @@ static int replay_one(const char * key) {
   if (!opt_parse(ob, &CASE.opt)) { fprintf(stderr, "bad options %s\n", ob); return 2; }
   CASE.oi = (CASE.opt.cmax == 0 && CASE.opt.umin == 0 && CASE.opt.cc == 0 && CASE.opt.nct == 0) ? 0 : 1;
   snprintf(SCRATCH, sizeof SCRATCH, "build/%s/scratch/replay", COMPONENT);
+  { char lf[260]; snprintf(lf, sizeof lf, "%s.log", SCRATCH);        /* the recorder's stderr: needed to name a failed check */
+    LOGFD = open(lf, O_RDWR | O_CREAT | O_TRUNC | O_APPEND, 0644); if (LOGFD >= 0) { fflush(NULL); dup2(LOGFD, 2); } }
   printf("oracle: work=%ld critical_path=%ld elapsed=%ld create=%ld wait=%ld other=%ld end=%ld  edges end=%ld create=%ld create_cont=%ld wait_cont=%ld other_cont=%ld\n",
 	 o.work, o.crit, o.elapsed, o.nodes[0], o.nodes[1], o.nodes[2], o.nodes[3], o.edges[0], o.edges[1], o.edges[2], o.edges[3], o.edges[4]);
   HAVE_BASE = 0;
@@ -773,6 +775,7 @@ static int replay_one(const char * key) {
     case_t save = CASE; CASE.opt = (ropt_t){ 0, 0, 0, 0, 100000 }; CASE.oi = 0; CASE.verbose = 0; run_case(); CASE = save;
   }
   run_case();
+  { char b[2000]; LOGOFF = 0; if (log_read(b, sizeof b)) printf("recorder's stderr: %s\n", b); }
   printf("%d class(es) of disagreement (including those of the uncontracted base run)\n", sl.ncls);
   for (int i = 0; i < sl.ncls; i++) printf("  %s x%ld   e.g. %s : %s\n", sl.cls[i].cls, sl.cls[i].count, sl.cls[i].best[0].key, sl.cls[i].best[0].msg);
   return sl.ncls ? 1 : 0;
